@@ -263,6 +263,7 @@ def index_cases(m: LoopModel) -> List[Tuple[G, Rat]]:
 
 
 from ..intervals import position_atom as _position_atom  # noqa: E402
+position_atom_ = _position_atom
 
 
 def scanned_positions(m: LoopModel, idx: Rat):
@@ -314,6 +315,26 @@ def interval_of(m: LoopModel, idx: Rat) -> Optional[Interval]:
         # dependency contract: an insertion position of a sorted array a is any of 0 .. len(a) (both ends included)
         La = m.length_of(a.args[0])
         return mk(C(0), La, f"np.searchsorted returns an insertion position in [0, len] = [0, {La}]")
+    if a.name in ("max", "min"):
+        from ..intervals import _clamped_position
+        cp = _clamped_position(a)
+        if cp is not None:
+            c_, inner = cp
+            iv_in = interval_of(m, inner)
+            if iv_in is not None:
+                lo_c, hi_c = iv_in.lo.is_const(), iv_in.hi.is_const()
+                if a.name == "max":
+                    # max(c, e): never below c; the upper end is e's (segments have L >= 3 >= c points for the small constants used)
+                    new_lo = C(max(c_.is_const(), lo_c)) if lo_c is not None else iv_in.lo
+                    return mk(new_lo, iv_in.hi, f"max({c_}, position in [{iv_in.lo}, {_short_v(iv_in.hi)}])")
+                new_hi = C(min(c_.is_const(), hi_c)) if hi_c is not None else None
+                if new_hi is not None:
+                    return mk(iv_in.lo, new_hi, f"min({c_}, position in [{iv_in.lo}, {iv_in.hi}])")
+        return None
+    if a.name in ("int", "floor") and len(a.args) == 1:
+        inner_iv = interval_of(m, a.args[0]) if position_atom_(a.args[0]) is not None else None
+        if inner_iv is not None:
+            return mk(inner_iv.lo, inner_iv.hi, f"int({inner_iv.why})")
     if a.name in ("int", "floor"):
         inner = a.args[0]
         if inner.mul(C(2)).equals(L) and s > 0 and rest.is_zero():
